@@ -6,7 +6,10 @@ EXTENDS ClientCircuit_MC, Json
 CONSTANTS Forms, WithCarry
 Pairs(f) == {<<k, f[k]>> : k \in DOMAIN f}
 \* the state is only an identity for the harness (it rebuilds the graph); what it compares is Obs
-St == ToString(core)
+\* (records are printed field by field in an order that depends on how they were built: subscribers go in as tuples)
+SubsT == [lv \in Levels |-> [i \in 1..Len(subs[lv]) |-> <<subs[lv][i].k, subs[lv][i].live, subs[lv][i].q>>]]
+St == ToString(<<seen, evN, rR, aR, dR, rU, dU, pend, done, failed, relIssued, ackedSince, xmits, ids, lastId,
+                 alive, abandoned, epoch, floor, pongs, openSeen, SubsT>>)
 Obs == [out |-> out, alive |-> alive, forgotten |-> {p \in DOMAIN rR : Get(evN, p) > 0} \cup openSeen, subs |-> subs, pending |-> PendIds \cup abandoned, done |-> done, failed |-> failed,
         ackedR |-> Pairs(aR), delivR |-> Pairs(dR), delivU |-> Pairs(dU), ids |-> ids]
 \* a data message (matches the extra subscribers) carries its acks appended; a PacketAck message does not match
@@ -20,6 +23,7 @@ MNext == \/ \E p \in RelPids, acks \in AckSets : RecvRel(p, acks) /\ \A f \in Fo
          \/ \E p \in UnrelPids, acks \in AckSets, match \in BOOLEAN : RecvUnrel(p, acks, match) /\ \A f \in FormsFor(acks, match) :
               P([n |-> "Recv", p |-> p, rel |-> FALSE, acks |-> acks, form |-> f])
          \/ \E l \in Levels, k \in SubKinds : DoSubscribe(l, k) /\ P([n |-> "Subscribe", l |-> l, k |-> k])
+         \/ \E l \in Levels, i \in 1..MaxSubs : Drain(l, i) /\ P([n |-> "Drain", l |-> l, i |-> i])
          \/ Stray /\ P([n |-> "Stray", acks |-> PendIds])
          \/ \E o \in Oldest : DoPing(o) /\ P([n |-> "Ping", oldest |-> o])
          \/ Lifecycle /\ GoAlive /\ P([n |-> "GoAlive"])
